@@ -437,7 +437,7 @@ def run_impl(case):
     g = case["g"]
     qs = case.get("qs", [])
     rep = case.get("rep")
-    g0 = gr.perturb(g, random.Random(rep)) if rep is not None else None
+    g0 = unit.legal_neighbour(g, rep, guarded=case.get("obj") == "pag")
     if rep is not None or case.get("pre"):
         # CROSS-CALL: first the API on an unrelated graph (nodes the target lacks, two layers only) in the same process
         A, labA, invA = gr.to_mixed(gr.G([90, 91, 92, 93], D=[[90, 92], [91, 92]], B=[[92, 93]]), None,
@@ -447,7 +447,7 @@ def run_impl(case):
         # REPEAT: warm up on a neighbour graph (same counts), edit the SAME object in place, then judge
         M, lab, inv, kw, kwa, lmap = build(g0, case)
         _observe(M, lab, inv, kw, kwa, qs)
-        gr.morph(M, g0, g, lab, lmap)
+        unit.morph(M, g0, g, lab, lmap)
     else:
         M, lab, inv, kw, kwa, lmap = build(g, case)
     if case.get("gattr"):
